@@ -374,6 +374,7 @@ class Work(object):
     def ep_determinism(self, cv, fn, msg, others):
         """same bytes => same point: again, after switching the parameter set away and back, in a fresh context"""
         ctx, R = self.ctx, self.R
+        other = self.rng.choice(others) if others else None
         first = self.ep_hash_case(cv, fn, msg, "|det-first")
         if first in ("skipped", "error"):
             return
@@ -382,8 +383,8 @@ class Work(object):
         if again not in ("skipped", "error") and ctx.begin(key + "|repeat", {"curve": cv.name, "msg": msg.hex()[:160]}):
             ctx.check(again == first, key + "|repeat", {"first": self.pd(first), "again": self.pd(again)})
             ctx.end()
-        if others:
-            onm, oid = self.rng.choice(others)
+        if other:
+            onm, oid = other
             R.call("ep_param_set", oid)
             R.fp_setup()
             # use the other parameter set so that its tables and constants really replace the current ones
@@ -523,11 +524,12 @@ class Work(object):
         ctx, R = self.ctx, self.R
         base = fn if fn not in ("ep2_map", "g2_map") else fn + "=" + R.target(fn)
         key = "%s|%s|%s%s" % (base, tw.name, lencls(len(msg)), extra or "")
+        fill = self.rng.randrange(1, 256)      # drawn whether or not the case runs (replay determinism)
         if not ctx.begin(key, {"curve": tw.name, "msg": msg.hex() if len(msg) <= 80 else msg[:80].hex() + "...",
                                "len": len(msg)}):
             return "skipped"
         buf = R.put(msg)
-        out = R.mem(self.K["sizeof_ep2_st"], self.rng.randrange(1, 256))
+        out = R.mem(self.K["sizeof_ep2_st"], fill)
         try:
             res = R.call(fn, out, buf, len(msg))
             st = self.verdicts.setdefault((fn, tw.name), [0, 0])
@@ -585,8 +587,7 @@ class Work(object):
                     reactivate()
                     got = hash_case("|det-" + label)
                 finally:
-                    leave()
-                    R.fp_setup()
+                    leave()       # the previous context, with its parameter set untouched, is current again
             else:
                 if prep is not None:
                     prep()
@@ -666,10 +667,11 @@ class Work(object):
 
             def hash_case(msg, extra=None):
                 key = "eb_map|%s|%s%s" % (nm, lencls(len(msg)), extra or "")
+                fill = rng.randrange(1, 256)
                 if not ctx.begin(key, {"curve": nm, "msg": msg.hex()[:160], "len": len(msg)}):
                     return "skipped"
                 buf = R.put(msg)
-                out = R.mem(SZ, rng.randrange(1, 256))
+                out = R.mem(SZ, fill)
                 tmp = R.mem(SZ, 0x11)
                 try:
                     res = R.call("eb_map", out, buf, len(msg))
@@ -757,12 +759,13 @@ class Work(object):
             def hash_case(fn, msg, dst, extra=None):
                 dcl = "" if fn == "ed_map" else ("|dst0" if len(dst) == 0 else ("|dst255" if len(dst) == 255 else "|dst"))
                 key = "%s|%s|%s%s%s" % (fn, nm, lencls(len(msg)), dcl, extra or "")
+                fill = rng.randrange(1, 256)
                 if not ctx.begin(key, {"curve": nm, "msg": msg.hex()[:160], "len": len(msg),
                                        "dst": dst.hex()[:80] if fn != "ed_map" else None}):
                     return "skipped"
                 buf = R.put(msg)
                 dbuf = R.put(dst)
-                out = R.mem(SZ, rng.randrange(1, 256))
+                out = R.mem(SZ, fill)
                 try:
                     if fn == "ed_map":
                         res = R.call(fn, out, buf, len(msg))
